@@ -44,4 +44,11 @@ pub fn run(run: &mut Run) {
         "unclosed-quote look-alikes are only emitted as the last text of their own comment".into(),
     ];
     run.random("roundtrip", run.tier.pick(8000, 200000), case_strategy, check);
+    if run.tier == crate::engine::Tier::Thorough {
+        let seeds: Vec<Vec<u8>> = (0..64u8).map(|i| (0..48u8).map(|k| i.wrapping_mul(53).wrapping_add(k.wrapping_mul(7))).collect()).collect();
+        run.fuzz_part("tag_roundtrip", "roundtrip", 250_000, 8, 600, seeds, &|bytes, probe| {
+            let case = crate::fuzzdec::decode_src_case(bytes, true);
+            (check(&case, probe), serde_json::to_value(&case).unwrap_or_default())
+        });
+    }
 }
